@@ -975,6 +975,13 @@ class Translator:
             return
         if n.kind == "unit":
             return
+        if n.kind == "scalar" and not rv.ops:
+            # a field-less enum modelled as its discriminant byte: the check supplies the variant -> discriminant table
+            vname = strip_generics(rv.name).split("::")[-1]
+            ec = self.cfg.get("enum_consts", {})
+            if vname in ec:
+                self.emit(f"{self.lv(dst)} = {ec[vname]};")
+                return
         raise TranslateError(f"aggregate into {n.kind}: {rv.raw}")
 
     # -- control flow ----------------------------------------------------------------------------
